@@ -280,7 +280,7 @@ def triple_cases(draw, tier="quick"):
     for _ in range(n):
         rows.append([[draw(prefixes()), draw(idents())] for _ in range(3)])
     return {"rows": rows, "gz": draw(st.booleans()), "named": draw(st.booleans()),
-            "header": draw(st.sampled_from([None, None, ["a", "b", "c"], ["object", "predicate", "subject"], ["s", "p", "o"]]))}
+            "header": draw(st.sampled_from([None, None, ["a", "b", "c"], ["object", "predicate", "subject"], ["s", "p", "o"], ["curie", "predicate", "curie"], ["", "", ""]]))}
 
 
 _counter = [0]
